@@ -92,7 +92,7 @@ def step (s : MSt) (ws : List String) : MSt × String :=
       | none =>
         -- a publish into the tenant of a user namespace (`mkreq`: every third one) makes the config actor announce the
         -- namespace as in use: on the leader path (every request awaited) that has happened before the next request
-        if (kind == "cfgset" || kind == "cfgfull") && bn % 3 == 2 then RNacos.Namespace.setWeak s.ns (nsId an) RNacos.Namespace.fConfig
+        if (kind == "cfgset" || kind == "cfgfull" || kind == "cfgbig" || kind == "cfgempty") && bn % 3 == 2 then RNacos.Namespace.setWeak s.ns (nsId an) RNacos.Namespace.fConfig
         else s.ns
     ({ s with ns := ns' }, "req L=* F=queued R=*")
   | "req" :: _ => (s, "req L=* F=queued R=*")
